@@ -733,7 +733,11 @@ func genFrozen(r *rand.Rand, id string, tier string) string {
 	if kind == "stack" {
 		calls = append(calls, "Push i1")
 	}
-	return "frozen | " + v.String() + " | " + strings.Join(calls, " ; ")
+	lit := v.String()
+	if r.Intn(3) == 0 {
+		lit += "+d" // created while the application's loggers (not discarding) and log levels were the defaults: frozen with those
+	}
+	return "frozen | " + lit + " | " + strings.Join(calls, " ; ")
 }
 
 func genInert(r *rand.Rand, id string, tier string) string {
